@@ -49,19 +49,24 @@ def js_round(x: float, ndigits: int = 0) -> float:
             return math.ceil(x - 0.5)
     else:
         multiplier = 10**ndigits
-        if math.isinf(x * multiplier):
+        scaled = x * multiplier
+        if scaled != scaled or math.isinf(scaled) or multiplier == 0:
             return x  # already an integer far beyond 2**53
         if x >= 0:
-            return math.floor(x * multiplier + 0.5) / multiplier
+            return math.floor(scaled + 0.5) / multiplier
         else:
-            return math.ceil(x * multiplier - 0.5) / multiplier
+            return math.ceil(scaled - 0.5) / multiplier
 
 
 def _scale_mantissa(abs_n: float, exp: int) -> float:
     """abs_n / 10**exp; for subnormal numbers 10**exp underflows to zero."""
     if exp < -300:
-        return (abs_n * 1e300) / (10 ** (exp + 300))
-    return abs_n / (10**exp)
+        abs_n = abs_n * 1e300
+        exp = exp + 300
+    divisor = 10**exp
+    if divisor == 0:
+        return 0.0  # not reachable for the exponent of a float (>= -324)
+    return abs_n / divisor
 
 
 class _PendingThrow(Exception):
